@@ -327,12 +327,23 @@ func (m *Model) newMailbox(o ROp, remote, name string, hint uint64) (*Model, *MM
 		id = hint // the id is opaque: any never-used id is acceptable
 	}
 	b := &MMbox{ID: id, Remote: remote, Name: name, UIDV: o.U, Sub: true, Flags: setOf(o.F), Perm: setOf(o.F2), Attrs: setOf(o.F3), UIDNext: 1}
+	c.dropSubsNamed(name) // a mailbox of this name exists again: the deleted subscription of that name is superseded
 	c.Mb[id] = b
 	c.Ever[id] = true
 	return c, b
 }
 
 func (b *MMbox) render() string { return vMailbox(b.ID, b.Remote, b.Name, b.UIDV, b.Sub) }
+
+func (m *Model) dropSubsNamed(name string) {
+	kept := m.Subs[:0:0]
+	for _, x := range m.Subs {
+		if x.Name != name {
+			kept = append(kept, x)
+		}
+	}
+	m.Subs = kept
+}
 
 // addSub is the deleted-subscription upsert. conflict = the remote id is already recorded under another name.
 func (m *Model) addSub(name, remote string) (conflict bool) {
@@ -420,6 +431,7 @@ func (m *Model) Apply(o ROp, hint uint64) []Alt {
 			return []Alt{fail}
 		}
 		c := m.Clone()
+		c.dropSubsNamed(o.N)
 		c.Mb[b.ID].Name = o.N
 		return []Alt{ok("", c)}
 	case "DeleteMailboxWithRemoteID":
